@@ -60,6 +60,20 @@ def make_env(name, shift=0):
         env = TradingEnv(BoxPortfolio(cs, -1.0, 1.5), state=feats, transmitter=tr, initial_cash=1000.0)
         actions = [np.array([0.5, 0.25]), np.array([-0.25, 1.0])]
         bad = np.array([9.0, 9.0])
+    elif name in ("fitA", "fitB"):
+        # library features whose default scaler is FITTED (fit_transformers=True) on the feature's own bounds; the two
+        # configurations differ in those bounds
+        G = _days(datetime(2021, 3, 1) + timedelta(days=28 * shift), 6)
+        cs = [ETF("A"), ETF("B")]
+        lo, hi = (-2.0, 2.5) if name == "fitA" else (-1.0, 2.0)
+        tr = Transmitter(list(G), folds={"training-set": [G[0], G[-1]], "f2": [G[2], G[-1]]})
+        tr.add_events(bar_events(G, cs, base=50.0, spread=1.0, step=3.0))
+        feats = [FeaturePortfolioWeight(cs, lo, hi)]
+        env = TradingEnv(BoxPortfolio(cs, 0.0, 1.0), state=feats, transmitter=tr, initial_cash=1000.0)
+        for f in feats:
+            f.fit_transformer()       # explicit fit of the default scaler on the feature's own bounds (deterministic)
+        actions = [np.array([0.5, 0.25]), np.array([0.25, 1.0])]
+        bad = np.array([9.0, 9.0])
     elif name == "holey":
         # timesteps 1 and 3 carry no event at all (a holiday inside the calendar); fold f2 starts after the first of them
         G = _days(datetime(2021, 3, 1) + timedelta(days=28 * shift), 7)
@@ -251,7 +265,8 @@ def first_diff(a, b):
 # schedules
 
 PAIRS = [("etf2", 0, "etf2", 0), ("etf2", 0, "fees", 1), ("chain", 0, "chain", 1), ("chain", 0, "chain", 0),
-         ("chain", 0, "etf2", 0), ("window", 0, "disc", 1), ("chain", 1, "fees", 0)]
+         ("chain", 0, "etf2", 0), ("window", 0, "disc", 1), ("chain", 1, "fees", 0),
+         ("fitA", 0, "fitB", 1), ("fitB", 0, "fitA", 0)]
 SCRIPT = [("reset", "training-set"), ("step", 0), ("step", 1), ("step", 0), ("step", 1)]
 
 
@@ -365,7 +380,7 @@ def run(tier, **kw):
     rep.set("rule", "sequential: every call history of length <= depth over 8 calls (reset fold 1/2, step a1/a2, malformed step, run to done, reset with a sampled 3-step / 2-step episode window) for 6 "
                     "configurations (2 ETFs with library features; the same on a grid with two event-less timesteps; ETF+margined with fees, latency and delay; ES chain across a roll; windowed State; "
                     "discrete space with delay 2), followed by a probe episode compared bit-for-bit (float.hex / array bytes) with a fresh environment; "
-                    "non-trivial = history with at least one successful call. schedules: ALL C(2n,n) interleavings of two n-call scripts for 7 pairs "
+                    "non-trivial = history with at least one successful call. schedules: ALL C(2n,n) interleavings of two n-call scripts for 9 pairs "
                     "of environments (incl. two chain environments at different dates), each compared with its run-alone trace; non-trivial = schedule with >= 2 switches")
     rep.set("samples", [{"part": "sequential", "config": "chain", "history": [0, 2, 4, 1]},
                         {"part": "schedule", "pair": ["chain", 0, "chain", 1], "schedule": [0, 1, 0, 1, 1, 0, 0, 1]}])
